@@ -129,12 +129,15 @@ func handleConn(conn net.Conn, conf *Config, logFrameRate bool) error {
 	t0 := time.Now()
 	for {
 		frame := <-spentFrames
+		verifPoint("w.buf.taken")
 		_, err := io.ReadFull(reader, frame)
 		if err != nil {
+			verifPoint("w.reader.closing")
 			close(writeFrames)
 			return err
 		}
 		totalFrames++
+		verifPoint("w.frame.filled")
 
 		if logFrameRate {
 			count++
@@ -152,6 +155,7 @@ func handleConn(conn net.Conn, conf *Config, logFrameRate bool) error {
 		}
 
 		writeFrames <- frame
+		verifPoint("w.frame.queued")
 		chLen := len(writeFrames)
 		if chLen > 10 && totalFrames%60 == 0 {
 			log.Printf("warning: high write backlog (%d)", chLen)
@@ -160,6 +164,7 @@ func handleConn(conn net.Conn, conf *Config, logFrameRate bool) error {
 }
 
 func writer(inFrames <-chan []byte, conf *Config, h *headers.HeaderInfo, outFrames chan []byte) {
+	defer verifPoint("w.writer.exited")
 	builder, err := newThermalRaw(conf, time.Now(), h)
 	if err != nil {
 		panic(err)
@@ -174,15 +179,19 @@ func writer(inFrames <-chan []byte, conf *Config, h *headers.HeaderInfo, outFram
 				panic(err)
 			}
 			changeFile = time.After(newFileInterval)
+			verifPoint("w.file.rotated")
 		case frame, ok := <-inFrames:
 			if !ok {
 				builder.Close()
 				return
 			}
+			verifPoint("w.frame.dequeued")
 			if err := writeFrame(builder, frame); err != nil {
 				panic(err)
 			}
+			verifPoint("w.frame.written")
 			outFrames <- frame // Return the frame to be reused
+			verifPoint("w.frame.recycled")
 		}
 	}
 }
